@@ -302,6 +302,81 @@ func (g *gen) world(bad bool) []string {
 	return w
 }
 
+// shared provides: a library in 2-3 builds that all provide one soname/virtual (at one version, at differing versions, or
+// unversioned), consumers by provide (plain and versioned) and by name with every operator; worlds list two or three
+// consumers in every order. This is the neighbourhood of disqualifyConflicts / conflictingVersion and of `pick`.
+func genSharedProvide(r *gal.Rand, tier string) *Case {
+	lib := gal.Pick(r, []string{"libfoo", "libbar", "zq"})
+	virt := gal.Pick(r, []string{"so:" + lib + ".so.1", "cmd:" + lib, "v" + lib})
+	vers := distinctVersions(r, 2+r.Intn(2))
+	var pkgs []Pkg
+	shape := r.Intn(4)
+	for i, v := range vers {
+		p := Pkg{Name: lib, Version: v, Origin: lib}
+		switch shape {
+		case 0: // same provided version everywhere
+			p.Provides = []string{virt + "=1"}
+		case 1: // provided version follows the build
+			p.Provides = []string{virt + "=" + v}
+		case 2: // unversioned
+			p.Provides = []string{virt}
+		default: // only some builds provide it
+			if i%2 == 0 {
+				p.Provides = []string{virt + "=1"}
+			}
+		}
+		if r.Chance(1, 3) {
+			p.Deps = []string{"base"}
+		}
+		pkgs = append(pkgs, p)
+	}
+	if r.Chance(1, 3) { // another name providing the same virtual
+		pkgs = append(pkgs, Pkg{Name: lib + "-compat", Version: "1.0", Origin: gal.Pick(r, []string{lib, lib + "-compat"}), Provides: []string{virt + gal.Pick(r, []string{"=1", "", "=9"})}})
+	}
+	pkgs = append(pkgs, Pkg{Name: "base", Version: "1.0", Origin: "base"})
+	ops := []string{"<", "<=", "=", ">", ">=", "~"}
+	var consumers []string
+	nc := 3 + r.Intn(3)
+	for i := 0; i < nc; i++ {
+		name := fmt.Sprintf("use%d", i)
+		var dep string
+		switch r.Intn(4) {
+		case 0:
+			dep = virt
+		case 1:
+			dep = virt + gal.Pick(r, []string{"=1", ">=1", "<2", "=" + vers[0]})
+		case 2:
+			dep = lib + gal.Pick(r, ops) + gal.Pick(r, vers)
+		default:
+			dep = lib
+		}
+		p := Pkg{Name: name, Version: "1.0", Origin: name, Deps: []string{dep}}
+		if r.Chance(1, 4) {
+			p.Deps = append(p.Deps, "base")
+		}
+		pkgs = append(pkgs, p)
+		consumers = append(consumers, name)
+	}
+	// shuffle the index order: the resolver's tie-breaks depend on it
+	for i := range pkgs {
+		j := i + r.Intn(len(pkgs)-i)
+		pkgs[i], pkgs[j] = pkgs[j], pkgs[i]
+	}
+	c := &Case{Stream: "shared-provide", Archs: []Arch{arch("x86_64", index("", 0, "x86_64", pkgs...))}}
+	for k := 0; k < 6; k++ {
+		a, b := gal.Pick(r, consumers), gal.Pick(r, consumers)
+		w := []string{a, b}
+		if r.Chance(1, 3) {
+			w = append(w, gal.Pick(r, consumers))
+		}
+		if r.Chance(1, 5) {
+			w = append(w, gal.Pick(r, []string{virt, lib, lib + "<" + vers[len(vers)-1]}))
+		}
+		c.Runs = append(c.Runs, Run{Arch: 0, World: w, Multi: k%2 == 0})
+	}
+	return c
+}
+
 func genGeneral(r *gal.Rand, tier string, bad bool) *Case {
 	a, g := genArch(r, tier, bad, "x86_64")
 	stream := "general"
